@@ -184,6 +184,7 @@ class Engine:
         self.loop_old: dict = {}
         self.bound_vars = []
         self.byte_arrays = {}
+        self.cur_frame = None
         self.no_note = False
         self.goal_mode = False
         self.range_noted = set()
@@ -640,6 +641,7 @@ class Engine:
             self.exec_stmt(s, frame)
 
     def exec_stmt(self, s, frame):
+        self.cur_frame = frame
         self.steps += 1
         if self.steps > self.vf.max_steps:
             raise EngineError("step limit exceeded")
@@ -1098,8 +1100,15 @@ class Engine:
                     raise
             else:
                 self.exec_block(s.orelse, frame)
-        except (PyExc, ReturnSig, BreakSig, ContinueSig):
-            run_final()   # if the finally block raises/returns itself, that overrides
+        except PyExc:
+            frame.in_exc_finally = getattr(frame, "in_exc_finally", 0) + 1
+            try:
+                run_final()   # if the finally block raises/returns itself, that overrides
+            finally:
+                frame.in_exc_finally -= 1
+            raise
+        except (ReturnSig, BreakSig, ContinueSig):
+            run_final()
             raise
         else:
             run_final()
@@ -1675,6 +1684,7 @@ class Engine:
         """Unknown callee: result unknown, mutable arguments havocked, may raise anything."""
         self.opaque_calls.add(what)
         if havoc_args:
+            self.guard_typestate_args(what, args, node)
             for a in args:
                 self.havoc_reachable(a)
         if may_raise and not self.spec:
@@ -1755,11 +1765,64 @@ class Engine:
         else:
             self.heap[ref.addr] = self.havoc_like(cur, name)
 
+    def guard_typestate_args(self, what, args, node):
+        """A typestate-carrying object (class spec with `stable` fields) handed to a callee without
+        contract keeps its stable fields - provided, syntactically, no definition of that callee
+        closes / aborts / stores / forwards-to-a-closer the handle.  Otherwise: out of subset."""
+        if node is None or not isinstance(node, ast.Call):
+            return
+        pos = []
+        for i, a in enumerate(node.args):
+            pass
+        stable_idx = []
+        muts = set()
+        # args as evaluated correspond to node.args then keywords; receivers are prepended by callers
+        vals = list(args)
+        for v in vals:
+            if isinstance(v, VRef):
+                o = self.heap.get(v.addr)
+                if isinstance(o, VObj):
+                    cs = C.CLASS_SPECS.get(o.cls)
+                    if cs and cs.stable:
+                        stable_idx.append(v)
+                        muts |= set(cs.mutators)
+        if not stable_idx:
+            return
+        # locate the syntactic positions of those handles among the call's arguments
+        positions, kwnames = [], []
+        frame_vals = {}
+        for i, a in enumerate(node.args):
+            if isinstance(a, ast.Name):
+                positions.append(i) if any(self._names_ref(a.id, v) for v in stable_idx) else None
+        for k in node.keywords:
+            if isinstance(k.value, ast.Name) and k.arg and any(self._names_ref(k.value.id, v) for v in stable_idx):
+                kwnames.append(k.arg)
+        cname = node.func.attr if isinstance(node.func, ast.Attribute) else (node.func.id if isinstance(node.func, ast.Name) else None)
+        if cname is None or (not positions and not kwnames):
+            raise OutOfSubset(node, f"typestate object passed to {what} in a way the escape guard cannot follow")
+        r = self.vf.callee_may_touch(cname, positions, kwnames, muts)
+        self.vf.escape_checked.add(f"{cname}({positions}{kwnames})")
+        if r:
+            raise OutOfSubset(node, f"uncontracted-effect-callee: {what}: {r}; it needs a contract")
+
+    def _names_ref(self, name, ref):
+        f = self.cur_frame
+        v = f.lookup(name) if f is not None else None
+        return isinstance(v, VRef) and v.addr == ref.addr
+
     def havoc_reachable(self, v, depth=0):
         if isinstance(v, VRef) and depth < 3:
             cur = self.heap[v.addr]
             if isinstance(cur, VObj) and cur.cls in self.vf.stable_classes:
                 return
+            if isinstance(cur, VObj):
+                cs = C.CLASS_SPECS.get(cur.cls)
+                if cs and cs.stable:
+                    nf = {}
+                    for f, x in cur.fields.items():
+                        nf[f] = x if (f in cs.stable or isinstance(x, VRef)) else self.havoc_like(x, f"hv{v.addr}.{f}")
+                    self.heap[v.addr] = VObj(cur.cls, nf, cur.ident)
+                    return
             self.heap[v.addr] = self.havoc_like(cur, f"hv{v.addr}")
         elif isinstance(v, VTuple):
             for x in v.items:
@@ -1791,7 +1854,7 @@ class Engine:
         pfx = self.vf.oid_prefix(frame)
         line = getattr(node, "lineno", 0) - (frame.fn_node.lineno if getattr(frame, "fn_node", None) is not None else 0)
         for j, r in enumerate(con.requires):
-            self.prove(f"{pfx}:pre-at-call:{con.func}@L{line}#{j + 1}", self.eval_goal(r, cfr, extra=env), "pre-at-call", node, detail=r, frame=cfr, extra=env)
+            self.prove(f"{pfx}:pre-at-call:{con.func}#{j + 1}", self.eval_goal(r, cfr, extra=env), "pre-at-call", node, detail=r, frame=cfr, extra=env)
         old = (dict(env), dict(self.heap))
         # havoc what the callee may modify
         for mname in con.modifies:
@@ -1845,6 +1908,12 @@ class Engine:
                 if con.raises_any:
                     if self.branch(fresh_bool("raises_any"), free=True):
                         raise PyExc(None, site=getattr(node, "lineno", None), any_of="Exception")
+            for path, ex in con.assigns.items():
+                parts = path.split(".")
+                tgt = env.get(parts[0])
+                for fld in parts[1:-1]:
+                    tgt = self.get_attr(tgt, fld, node, frame)
+                self.set_attr(tgt, parts[-1], self.eval_spec(ex, cfr, extra=env), node)
             if con.returns == "self":
                 res = args[0]
             else:
